@@ -63,3 +63,155 @@ declare_class(
     inv="rung_inv",
     builder="rung",
 )
+
+declare_class(
+    "StoppingRungSystem",
+    HB_STOP + ":StoppingRungSystem",
+    dict(num_rungs=Int, _metric=Lit("loss"), _mode=Enum("min", "max"), _resource_attr=Lit("epoch"), _max_t=Int, _rungs=List(Obj("Rung"))),
+    inv="rungsys_inv",
+)
+
+
+def rungsys_inv(rs):
+    """rungs are stored top-down: strictly decreasing positive levels, all below max_t,
+    every rung sorted for the system's mode"""
+    n = len(rs._rungs)
+    return {
+        "num": rs.num_rungs == n,
+        "levels-decreasing": forall(range(0, n - 1), lambda i: rs._rungs[i].level > rs._rungs[i + 1].level),
+        "levels-positive": forall(range(0, n), lambda i: rs._rungs[i].level >= 1),
+        "below-max": (rs._rungs[0].level < rs._max_t) if n > 0 else True,
+        "mode": forall(range(0, n), lambda i: rs._rungs[i]._is_min == (rs._mode == "min")),
+    }
+
+
+def same_entry(a, b):
+    return unchanged(a, b)
+
+
+def inserted(new, old, e_id, e_val):
+    """rung ``new`` is rung ``old`` with one entry (e_id, e_val) inserted, nothing else changed"""
+    n = len(old.data)
+    return (
+        len(new.data) == n + 1
+        and new.level == old.level
+        and new.prom_quant == old.prom_quant
+        and new._is_min == old._is_min
+        and exists(
+            range(0, n + 1),
+            lambda p: new.data[p].trial_id == e_id
+            and new.data[p].metric_val == e_val
+            and forall(range(0, n + 1), lambda i: same_entry(new.data[i], old.data[i]) if i < p else True)
+            and forall(range(0, n + 1), lambda i: same_entry(new.data[i], old.data[i - 1]) if i > p else True),
+        )
+    )
+
+
+def stop_rule(r, metric, cont):
+    """documented rule with tie latitude: strictly better than the quantile of the rung
+    (own value included) => continue, strictly worse => stop, fewer than 2 entries => continue"""
+    n = len(r.data)
+    if n < 2:
+        return cont == True  # noqa: E712
+    q = np_quantile_linear(r)
+    better = metric < q if r._is_min else metric > q
+    worse = metric > q if r._is_min else metric < q
+    return implies(better, cont) and implies(worse, not cont)
+
+# -- promotion-type rung systems -------------------------------------------------------------
+
+HB_COST = "syne_tune.optimizer.schedulers.hyperband_cost_promotion"
+
+declare_class("PEntry", HB_PROM + ":PromotionRungEntry", dict(trial_id=Str, metric_val=Real, was_promoted=Bool))
+
+declare_class(
+    "PRung",
+    HB_STOP + ":Rung",
+    dict(level=Int, prom_quant=Real, _is_min=Bool, data=SortedListT(Obj("PEntry"), key="rung_key"), _trial_ids=SetT(Str)),
+    inv="rung_inv",
+    builder="prung",
+)
+
+RUNNING_T = Map(Str, Rec(milestone=Int, resume_from=Opt(Int)))
+
+declare_class(
+    "PromotionRungSystem",
+    HB_PROM + ":PromotionRungSystem",
+    dict(num_rungs=Int, _metric=Lit("loss"), _mode=Enum("min", "max"), _resource_attr=Lit("epoch"), _max_t=Int, _rungs=List(Obj("PRung")), _running=RUNNING_T),
+    inv="rungsys_inv",
+)
+
+declare_class("CEntry", HB_COST + ":CostPromotionRungEntry", dict(trial_id=Str, metric_val=Real, was_promoted=Bool, cost_val=Real))
+
+declare_class(
+    "CRung",
+    HB_STOP + ":Rung",
+    dict(level=Int, prom_quant=Real, _is_min=Bool, data=SortedListT(Obj("CEntry"), key="rung_key"), _trial_ids=SetT(Str)),
+    inv="rung_inv",
+    builder="crung",
+)
+
+declare_class(
+    "CostPromotionRungSystem",
+    HB_COST + ":CostPromotionRungSystem",
+    dict(num_rungs=Int, _metric=Lit("loss"), _mode=Enum("min", "max"), _resource_attr=Lit("epoch"), _cost_attr=Lit("cost"), _max_t=Int, _rungs=List(Obj("CRung")), _running=RUNNING_T),
+    inv="rungsys_inv",
+)
+
+
+def strictly_better(r, metric, q):
+    return metric < q if r._is_min else metric > q
+
+
+def strictly_worse(r, metric, q):
+    return metric > q if r._is_min else metric < q
+
+
+def first_unpromoted(r, f):
+    """f is the position of the first entry of r that has not been promoted"""
+    return 0 <= f and f < len(r.data) and (not r.data[f].was_promoted) and forall(range(0, len(r.data)), lambda i: r.data[i].was_promoted if i < f else True)
+
+
+def all_promoted(r):
+    return forall(range(0, len(r.data)), lambda i: r.data[i].was_promoted)
+
+
+def none_eligible(r):
+    """no entry of rung r *must* be promoted: fewer than two entries, or everything promoted,
+    or the only candidate (first un-promoted entry) is not strictly better than the quantile"""
+    n = len(r.data)
+    if n < 2:
+        return True
+    q = np_quantile_linear(r)
+    return all_promoted(r) or exists(range(0, n), lambda f: first_unpromoted(r, f) and not strictly_better(r, r.data[f].metric_val, q))
+
+
+def promotable_spec(r, result):
+    """specification of PromotionRungSystem._find_promotable_trial (tie latitude at the quantile)"""
+    n = len(r.data)
+    if n < 2:
+        return result is None
+    q = np_quantile_linear(r)
+    if result is None:
+        return none_eligible(r)
+    pos = result[1]
+    return first_unpromoted(r, pos) and result[0] == r.data[pos].trial_id and not strictly_worse(r, r.data[pos].metric_val, q)
+
+
+def moved_promoted(new, old, pos):
+    """rung ``new`` is ``old`` with entry ``pos`` flagged promoted and re-inserted
+    (it may move among entries of equal metric); all other entries keep their relative order"""
+    n = len(old.data)
+    return (
+        len(new.data) == n
+        and new.level == old.level
+        and new.prom_quant == old.prom_quant
+        and new._is_min == old._is_min
+        and exists(
+            range(0, n),
+            lambda p: new.data[p].trial_id == old.data[pos].trial_id
+            and new.data[p].metric_val == old.data[pos].metric_val
+            and new.data[p].was_promoted
+            and forall(range(0, n - 1), lambda i: same_entry(new.data[i + (1 if i >= p else 0)], old.data[i + (1 if i >= pos else 0)])),
+        )
+    )
